@@ -166,7 +166,7 @@ def fault(kind: int, v: str, w: str, long_spelling: bool) -> bool:
 
 # ---- everything after the first '--' is positional: the outcome is decided by counting
 TAIL_MENU = ["--", "-f", "", "x", "--zz", "-", "--opt=1"]
-DD_SKELS = {"S1": (1, 2, False), "S2": (0, None, True), "S6": (0, 0, False), "S8": (2, None, True)}       # (required, capacity or None, last is multi-valued)
+DD_SKELS = {"S1": (1, 2, False), "S2": (0, None, True), "S6": (0, 0, False), "S8": (2, None, True), "S14B": (1, 1, False), "B14": (1, 1, False)}       # (required, capacity or None, last is multi-valued)
 
 
 def _dd_case(skel_name, nbefore, t1, t2, ntail, lenient):
@@ -177,6 +177,8 @@ def _dd_case(skel_name, nbefore, t1, t2, ntail, lenient):
     tokens = before + ["--"] + tail
     pos = before + tail
     names = [a.name for a in skel.all_args]
+    for wskel, wtokens in skel.warm:           # a format derived from the same base object was used first
+        DefaultArgsParser().parse(ArgvArgs(["prog"] + list(wtokens)), wskel.fmt, True)
     try:
         a = DefaultArgsParser().parse(ArgvArgs(["prog"] + tokens), skel.fmt, lenient)
         got = ("ok", a.arguments(False), a.options(False))
@@ -210,6 +212,52 @@ def dd_tail(nbefore: int, k1: int, k2: int, ntail: int, lenient: bool) -> bool:
                     conc_int(ntail, 0, 2), conc_bool(lenient))
 
 
+# ---- the value of a value-taking option: never a dash token, never the separator
+NEXT = ["word", "--flag", "-f", "--", "-", "--zz", "-fo"]
+
+
+def _value_rule_case(kind, spell, k_next, third, lenient):
+    nxt = NEXT[k_next]
+    rest = ["t"] if third else []
+    if kind == 0:        # S1: -o/--opt REQUIRES a value; <a> [<b>]
+        skel = pfmt.S1
+        tokens = ["p", ["--opt", "-o"][spell], nxt] + rest
+        if nxt == "word":
+            exp = ("ok", {"a": "p", **({"b": "t"} if third else {})}, {"opt": "word"})
+        elif nxt == "-":
+            exp = ("ok", {"a": "p", **({"b": "t"} if third else {})}, {"opt": "-"}) if False else None      # a lone '-' is not decided by the statement
+        else:
+            exp = ("CannotParseArgsException",)          # the required value was left out, whatever follows
+    else:                # S2: -m/--maybe takes an OPTIONAL value (default 'dflt'); [<rest>...]
+        skel = pfmt.S2
+        tokens = [["--maybe", "-m"][spell], nxt] + rest
+        if nxt == "word":
+            exp = ("ok", {"rest": ["t"]} if third else {}, {"maybe": "word"})
+        elif nxt == "--":
+            exp = ("ok", {"rest": ["t"]} if third else {}, {"maybe": "dflt"})
+        else:
+            exp = None     # the next token is an (unknown / known) option of its own: covered by the generic contracts
+    if exp is None:
+        return True
+    try:
+        a = DefaultArgsParser().parse(ArgvArgs(["prog"] + tokens), skel.fmt, lenient)
+        got = ("ok", a.arguments(False), a.options(False))
+    except (CannotParseArgsException, NoSuchOptionException) as e:
+        got = (type(e).__name__,)
+    if lenient:
+        return got[0] == "ok" and (exp[0] != "ok" or got == exp)
+    return got == exp
+
+
+def value_rule(kind: int, spell: int, k_next: int, third: bool, lenient: bool) -> bool:
+    """
+    pre: 0 <= kind <= 1 and 0 <= spell <= 1 and 0 <= k_next < len(NEXT)
+    post: _
+    """
+    from vf.sym import conc_bool, conc_int, untraced
+    return untraced(_value_rule_case, conc_int(kind, 0, 1), conc_int(spell, 0, 1), conc_int(k_next, 0, len(NEXT) - 1), conc_bool(third), conc_bool(lenient))
+
+
 def conditions(tier):
     quick = tier == "quick"
     t = 90 if quick else 600
@@ -239,6 +287,9 @@ def conditions(tier):
     for sk in sorted(DD_SKELS):
         conds.append({"name": "dd_tail[%s]" % sk, "fn": dd_tail, "timeout": t, "part": {"skel": sk},
                       "bounds": "format %s: 0-2 plain words, '--', then 0-2 tokens from %r (everything after the first '--' is positional): strict accepts exactly when the number of positionals fits, with every one of them assigned in order; lenient never fails" % (sk, TAIL_MENU)})
+    conds.append({"name": "value_rule", "fn": value_rule, "timeout": t,
+                  "bounds": "a value-taking option (required value on S1, optional value on S2; long and short spelling) followed by a token from %r and optionally one more word: a dash token or the separator is never taken as the value - "
+                            "strict rejects a left-out required value with the cannot-parse error whatever follows, an optional value falls back to its default, lenient never fails" % (NEXT,)})
     conds.append({"name": "tokens_twin", "fn": tokens_twin, "timeout": t, "expect": "refute", "part": {"skel": "S1"}, "bounds": "reachability twin"})
     conds.append({"name": "fault", "fn": fault, "timeout": t, "bounds": "7 single-fault mutations of a valid line, values 1-2 chars over {a,x,1,=}, long/short spelling"})
     return conds
